@@ -186,7 +186,7 @@ class Linear(Sub):
             "steps": steps, "per_call": st.booleans(), "wc": st.sampled_from((False, False, False, True)),
             # how Q and R reach the filter: both registered / both per call (the `per_call` flag), or MIXED - both registered, one of
             # them with a stale value that the call overrides (a per-step measurement covariance over a registered default)
-            "supply": st.sampled_from(("plain", "plain", "plain", "mixed_Q", "mixed_R"))})
+            "supply": st.sampled_from(("plain", "plain", "plain", "mixed_Q", "mixed_R", "reconfigured"))})
 
     def oracle(self, case, rec):
         nx, nu, ny = case["nx"], case["nu"], case["ny"]
@@ -201,7 +201,27 @@ class Linear(Sub):
         Q, Rm = T(s["Q"]), T(s["R"])
         supply = case.get("supply", "plain")
         cls = pp.module.EKF if case["filter"] == "EKF" else pp.module.UKF
-        if supply == "plain":
+        held = []
+        if supply == "reconfigured":
+            # the documented way to change the noise model of an existing filter: set_uncertainty() once more.  The filter is built
+            # with STALE covariances - one tensor object shared by Q and R when they have the same size - and then reconfigured with the
+            # true ones, one call per matrix.  The caller's tensors must keep their values (a reconfiguration that writes into the
+            # registered tensor would overwrite whatever shares it).
+            stale = lambda M: 4.0 * M + 0.5 * torch.eye(M.shape[0], dtype=M.dtype)
+            if nx == ny:
+                S = stale(Q)
+                flt = cls(model, S, S)
+                held = [(S, S.clone(), "the tensor given to the constructor as Q and R")]
+            else:
+                S1, S2 = stale(Q), stale(Rm)
+                flt = cls(model, S1, S2)
+                held = [(S1, S1.clone(), "the constructor's Q"), (S2, S2.clone(), "the constructor's R")]
+            with rec.sut("set_uncertainty"):
+                flt.set_uncertainty(Q=Q)
+                flt.set_uncertainty(R=Rm)
+            for t_, keep_, nm_ in held:
+                rec.check(torch.equal(t_, keep_), "set_uncertainty:mutates_caller_tensor", "set_uncertainty overwrote %s" % nm_)
+        elif supply == "plain":
             flt = cls(model) if case["per_call"] else cls(model, Q, Rm)
         else:
             stale = lambda M: 4.0 * M + 0.5 * torch.eye(M.shape[0], dtype=M.dtype)
@@ -225,7 +245,9 @@ class Linear(Sub):
             u = rs.randn(nu) * 10 ** rs.uniform(-1, 1)
             y = rs.randn(ny) * 10 ** rs.uniform(-1, 1.5)
             kw = {"Q": Q, "R": Rm} if case["per_call"] else {}
-            if supply == "mixed_Q":
+            if supply == "reconfigured":
+                kw = {}
+            elif supply == "mixed_Q":
                 kw = {"Q": Q}
             elif supply == "mixed_R":
                 kw = {"R": Rm}
